@@ -143,7 +143,13 @@ Definition json_plain (c : N) : bool :=
   (32 <=? c) && (c <=? 126) &&
   negb ((c =? 34) || (c =? 92) || (c =? 60) || (c =? 62) || (c =? 38) || (c =? 61)).
 
-Definition print_value (v : value) : option bytes :=
+(** Text that holds no backslash and no '=' (it may hold ','). *)
+Definition plain_char (c : N) : bool := negb (c =? 92) && negb (c =? 61).
+Definition plain_text (t : bytes) : bool := forallb plain_char t.
+
+(** [femit] is the text of float64 / []float64 values (strconv / encoding/json float formatting, not
+    specified here); such a value is inside the specification when that text is plain. *)
+Definition print_value_f (femit : value -> bytes) (v : value) : option bytes :=
   match v with
   | VInvalid => Some (str "unknown")
   | VBool b => Some (text_bool b)
@@ -152,8 +158,11 @@ Definition print_value (v : value) : option bytes :=
   | VBools l => Some (text_bools l)
   | VInts l => Some (text_ints l)
   | VStrs l => if forallb (forallb json_plain) l then Some (text_strs l) else None
-  | VFloat _ | VFloats _ => None
+  | VFloat _ | VFloats _ => if plain_text (femit v) then Some (femit v) else None
   end.
+(** Without a float text: floats are outside. *)
+Definition no_float (v : value) : bytes := [92].
+Definition print_value (v : value) : option bytes := print_value_f no_float v.
 
 Fixpoint all_some {A} (l : list (option A)) : option (list A) :=
   match l with
@@ -162,10 +171,12 @@ Fixpoint all_some {A} (l : list (option A)) : option (list A) :=
   | None :: _ => None
   end.
 
-Definition printed_binding (x : kv) : option (bytes * bytes) :=
-  match print_value (snd x) with Some t => Some (fst x, t) | None => None end.
+Definition printed_binding_f (femit : value -> bytes) (x : kv) : option (bytes * bytes) :=
+  match print_value_f femit (snd x) with Some t => Some (fst x, t) | None => None end.
 (** The key -> printed value mapping of a set ([None] if some value is outside the specification). *)
-Definition printed (s : list kv) : option (list (bytes * bytes)) := all_some (map printed_binding s).
+Definition printed_f (femit : value -> bytes) (s : list kv) : option (list (bytes * bytes)) :=
+  all_some (map (printed_binding_f femit) s).
+Definition printed (s : list kv) : option (list (bytes * bytes)) := printed_f no_float s.
 
 (** Reading decimal text (the meaning of what FormatInt writes). *)
 Definition is_digit (c : N) : bool := (48 <=? c) && (c <=? 57).
@@ -250,7 +261,17 @@ Definition decode_enc (enc : bytes) : option (list (bytes * bytes)) :=
 Definition EncodingSpec (contents : list kv) (encoded : bytes) : Prop :=
   forall l, printed contents = Some l -> decode_enc encoded = Some l.
 
+(** ... for all eight value types, given the float texts. *)
+Definition EncodingSpecF (femit : value -> bytes) (contents : list kv) (encoded : bytes) : Prop :=
+  forall l, printed_f femit contents = Some l -> decode_enc encoded = Some l.
+
 Definition strpair_eqb (a b : bytes * bytes) : bool := bytes_eqb (fst a) (fst b) && bytes_eqb (snd a) (snd b).
+
+Definition encoding_ok_f (femit : value -> bytes) (contents : list kv) (encoded : bytes) : bool :=
+  match printed_f femit contents with
+  | Some l => option_eqb (list_eqb strpair_eqb) (decode_enc encoded) (Some l)
+  | None => true
+  end.
 
 Definition encoding_ok (contents : list kv) (encoded : bytes) : bool :=
   match printed contents with
